@@ -487,6 +487,130 @@ theorem eqpt_faces_neighbour_roadm (t : Table) (n : Node) (q : Eqpt) (l : List (
     fun c hc => List.mem_flatten.2 ⟨_, hpart, hc⟩
   refine ⟨hsub _ ?_, hsub _ ?_, hsub _ ?_, hsub _ ?_⟩ <;> simp [connectEqpt]
 
+/-! ### unique names -/
+
+theorem city_fixed (links : List Link) (n : Node) : (correctType links n).city = n.city := by
+  unfold correctType; split <;> rfl
+
+theorem fixedNodes_cities (t : Table) : (fixedNodes t).map (·.city) = cities t.nodes := by
+  simp [fixedNodes, cities, List.map_map, Function.comp_def, city_fixed]
+
+/-- **names are unique** (structured names): in a converted workbook without self-loop rows no two
+elements carry the same name.  The rendering of names to uid strings is injective as long as city
+names and cable ids do not contain the separators (checked by the monitor on every run); that part is
+not proved, hence `_partial` in the evidence. -/
+theorem names_unique (t0 : Table) (o : Out) (h : convert t0 = .ok o) (hself : ∀ l ∈ t0.links, l.a ≠ l.z) :
+    (o.elements.map (·.name)).Nodup := by
+  obtain ⟨re, ef, wf, ee, we, pc, hs, hre, hef, hwf, hee, hwe, _, hel, _⟩ := convert_ok t0 o h
+  have hv := (sanity_ok_iff t0).1 hs
+  simp only [Violates, not_or, Bool.not_eq_true] at hv
+  obtain ⟨v1, _, v3, _, _, _, v7, _⟩ := hv
+  have hcity : ((fixedNodes t0).map (·.city)).Nodup := by
+    rw [fixedNodes_cities]
+    simpa [badDuplicateCity] using v1
+  have hlinks : t0.links.Pairwise (fun l1 l2 => sameLink l1 l2 = false) := by
+    simpa [badDuplicateLink, hasDuplicateLink] using v3
+  have heq : t0.eqpts.Pairwise (fun e1 e2 => (e1.a == e2.a && e1.z == e2.z) = false) := by
+    simpa [badDuplicateEqpt, hasDuplicateEqpt] using v7
+  -- the names of the blocks built with mapM
+  have nre : re.map (·.name) = ((fixedNodes t0).filter (isType "roadm")).map (fun n => Name.roadm n.city) :=
+    mapM_ok_map _ _ _ (fun n y hy => roadmElem_name _ _ _ hy) _ _ hre
+  have nef : ef.map (·.name) = t0.links.map (fun l => Name.fiber l.a l.z l.east.cable) :=
+    mapM_ok_map _ _ _ (fun l y hy => by
+      simp only [bind_ok] at hy
+      obtain ⟨_, _, _, _, hy⟩ := hy
+      exact fiberElem_name _ _ _ _ _ _ hy) _ _ hef
+  have nwf : wf.map (·.name) = t0.links.map (fun l => Name.fiber l.z l.a l.west.cable) :=
+    mapM_ok_map _ _ _ (fun l y hy => by
+      simp only [bind_ok] at hy
+      obtain ⟨_, _, _, _, hy⟩ := hy
+      exact fiberElem_name _ _ _ _ _ _ hy) _ _ hwf
+  have nee : ee.map (·.name) = t0.eqpts.map (fun q => Name.eqE q.a q.z) :=
+    mapM_ok_map _ _ _ (fun q y hy => by
+      simp only [bind_ok, pure_ok] at hy
+      obtain ⟨_, _, rfl⟩ := hy
+      unfold eastEqptElem; rfl) _ _ hee
+  have nwe : we.map (·.name) = t0.eqpts.map (fun q => Name.eqW q.a q.z) :=
+    mapM_ok_map _ _ _ (fun q y hy => by
+      simp only [bind_ok, pure_ok] at hy
+      obtain ⟨_, _, rfl⟩ := hy
+      unfold westEqptElem; rfl) _ _ hwe
+  -- nodup of a block that names the cities of a sublist of the nodes
+  have hsub : ∀ (P : Node → Bool) (c : String → Name), (∀ a b, c a = c b → a = b) →
+      (((fixedNodes t0).filter P).map (fun n => c n.city)).Nodup := by
+    intro P c hc
+    have h1 : (((fixedNodes t0).filter P).map (·.city)).Nodup :=
+      List.Nodup.sublist (List.Sublist.map _ List.filter_sublist) hcity
+    have := List.Nodup.map (f := c) (fun a b hab => hc a b hab) h1
+    simpa [List.map_map, Function.comp_def] using this
+  have hfE : (t0.links.map (fun l => Name.fiber l.a l.z l.east.cable)).Nodup := by
+    rw [List.Nodup, List.pairwise_map]
+    refine hlinks.imp ?_
+    intro a b hab heq'
+    simp only [Name.fiber.injEq] at heq'
+    simp [sameLink, heq'.1, heq'.2.1] at hab
+  have hfW : (t0.links.map (fun l => Name.fiber l.z l.a l.west.cable)).Nodup := by
+    rw [List.Nodup, List.pairwise_map]
+    refine hlinks.imp ?_
+    intro a b hab heq'
+    simp only [Name.fiber.injEq] at heq'
+    simp [sameLink, heq'.1, heq'.2.1] at hab
+  have hEW : ∀ a ∈ t0.links.map (fun l => Name.fiber l.a l.z l.east.cable),
+      ∀ b ∈ t0.links.map (fun l => Name.fiber l.z l.a l.west.cable), a ≠ b := by
+    intro a ha b hb hab
+    obtain ⟨l1, hl1, rfl⟩ := List.mem_map.1 ha
+    obtain ⟨l2, hl2, rfl⟩ := List.mem_map.1 hb
+    simp only [Name.fiber.injEq] at hab
+    obtain ⟨e1, e2, _⟩ := hab
+    -- l1 and l2 join the same two cities in opposite orientation
+    by_cases h12 : l1 = l2
+    · subst h12; exact hself l1 hl1 e1
+    · have hsym : sameLink l1 l2 = true := by simp [sameLink, e1, e2]
+      have hsym' : sameLink l2 l1 = true := by simp [sameLink, e1, e2]
+      have hsymm : Std.Symm (fun l1 l2 : Link => sameLink l1 l2 = false) := by
+        constructor
+        intro x y hxy
+        simp only [sameLink, Bool.or_eq_false_iff, Bool.and_eq_false_iff, beq_eq_false_iff_ne] at hxy ⊢
+        constructor
+        · rcases hxy.1 with h | h
+          · left; exact fun e => h e.symm
+          · right; exact fun e => h e.symm
+        · rcases hxy.2 with h | h
+          · right; exact fun e => h e.symm
+          · left; exact fun e => h e.symm
+      have := List.Pairwise.forall (R := fun l1 l2 : Link => sameLink l1 l2 = false) hlinks hl1 hl2 h12
+      rw [hsym] at this; cases this
+  have hqE : (t0.eqpts.map (fun q => Name.eqE q.a q.z)).Nodup := by
+    rw [List.Nodup, List.pairwise_map]
+    refine heq.imp ?_
+    intro a b hab heq'
+    simp only [Name.eqE.injEq] at heq'
+    simp [heq'.1, heq'.2] at hab
+  have hqW : (t0.eqpts.map (fun q => Name.eqW q.a q.z)).Nodup := by
+    rw [List.Nodup, List.pairwise_map]
+    refine heq.imp ?_
+    intro a b hab heq'
+    simp only [Name.eqW.injEq] at heq'
+    simp [heq'.1, heq'.2] at hab
+  rw [hel]
+  simp only [List.map_append, List.map_map, nre, nef, nwf, nee, nwe]
+  simp only [List.nodup_append, List.mem_append, List.mem_map, Function.comp_def, simpleElem]
+  refine ⟨⟨⟨⟨⟨⟨⟨⟨⟨?_, ?_, ?_⟩, ?_, ?_⟩, ?_, ?_⟩, ?_, ?_⟩, ?_, ?_⟩, ?_, ?_⟩, ?_, ?_⟩, ?_, ?_⟩, ?_, ?_⟩
+  all_goals first
+    | exact hsub _ _ (fun a b hab => by injection hab)
+    | exact hfE
+    | exact hfW
+    | exact hqE
+    | exact hqW
+    | (intro a ha b hb hab
+       rw [← hab] at hb
+       obtain ⟨y, hy, rfl⟩ := hb
+       first
+         | (simp at ha; done)
+         | (simp at ha
+            obtain ⟨x, hx, e1, e2, e3⟩ := ha
+            exact hEW _ (List.mem_map.2 ⟨x, hx, rfl⟩) _ (List.mem_map.2 ⟨y, hy, rfl⟩) (by simp [e1, e2, e3])))
+
 /-! ### services -/
 
 /-- **units**: GHz → Hz and Gbit/s → bit/s multiply by 10⁹; dBm → W is `10^(p/10)·10⁻³`, i.e.
